@@ -1156,6 +1156,9 @@ pub fn run(case: &str, ctx: &mut Ctx) -> String {
     if !w.is_empty() && w[0] == "glue" {
         return sessglue::run(case, ctx);
     }
+    if !w.is_empty() && w[0] == "glueb" {
+        return sessglue::run_b(case, ctx);
+    }
     if !w.is_empty() && w[0] == "sess" {
         return conn::run(case, ctx);
     }
